@@ -98,7 +98,7 @@ func vpH_C15_frozen() {
 	if vpThorough() && vpChoice("docset", 2) == 1 {
 		docs = []*vpDoc{g.doc(8, 0), g.doc(6, 1), g.doc(4, 2), g.doc(7, 3)}
 	}
-	seg := vpBuild(docs, []uint32{1025, 2}[vpChoice("mode", 2)])
+	seg := vpBuild(docs, []uint32{1025, 2, 1}[vpChoice("mode", 3)])
 	switch vpChoice("kind", 3) {
 	case 1:
 		seg = vpLoad(vpPersist(seg))
